@@ -231,11 +231,12 @@ def sh(cmd, timeout=COQC_TIMEOUT, cwd=None):
 
 
 def coq_flags():
-    return ["-Q", os.path.join(COQ, "theories"), "CV", "-Q", os.path.join(COQ, "gen"), "CVgen",
+    return ["-Q", os.path.join(COQ, "theories"), "CV", "-Q", os.path.join(COQ, "mc"), "CVmc", "-Q", os.path.join(COQ, "gen"), "CVgen",
             "-w", "-notation-overridden,-deprecated-hint-without-locality,-ambiguous-paths,-deprecated-instance-without-locality,-deprecated-hint-rewrite-without-locality,-redundant-canonical-projection,-projection-no-head-constant"]
 
 
 def ensure_makefile():
+    sh(os.path.join(VERIF, "bin", "mkproject"))
     mk = os.path.join(COQ, "Makefile")
     proj = os.path.join(COQ, "_CoqProject")
     if not os.path.exists(mk) or os.path.getmtime(mk) < os.path.getmtime(proj):
@@ -286,6 +287,26 @@ def parse_assumptions(out):
     return blocks
 
 
+def dependency_closure(files):
+    """All .v files of this development that the given files (transitively) Require."""
+    seen, todo = set(), list(files)
+    while todo:
+        f = todo.pop()
+        if f in seen or not os.path.exists(f):
+            continue
+        seen.add(f)
+        txt = re.sub(r"\(\*.*?\*\)", "", open(f).read(), flags=re.S)
+        for m in re.finditer(r"From\s+(CV|CVmc)\s+Require\s+(?:Import\s+|Export\s+)?([^.]*(?:\.[A-Za-z_][\w]*)*)\s*\.(?:\s|$)", txt):
+            root = "theories" if m.group(1) == "CV" else "mc"
+            for name in m.group(2).split():
+                todo.append(os.path.join(COQ, root, *name.split(".")) + ".v")
+        for m in re.finditer(r"Require\s+(?:Import\s+|Export\s+)?((?:CV|CVmc)\.[\w\.]+)", txt):
+            parts = m.group(1).split(".")
+            root = "theories" if parts[0] == "CV" else "mc"
+            todo.append(os.path.join(COQ, root, *parts[1:]) + ".v")
+    return sorted(seen)
+
+
 def static_stage(pid):
     """Rebuild the theory a property depends on, re-check its Props files, return a report dict.
 
@@ -298,15 +319,14 @@ def static_stage(pid):
         rep["ok"] = False
         rep["errors"].append("no Props file for %s" % pid)
         return rep
-    # forbidden words anywhere in the development
-    for root in ("theories", "mc"):
-        for path in glob.glob(os.path.join(COQ, root, "**", "*.v"), recursive=True):
-            txt = open(path).read()
-            txt_nc = re.sub(r"\(\*.*?\*\)", "", txt, flags=re.S)
-            m = FORBIDDEN.search(txt_nc)
-            if m:
-                rep["ok"] = False
-                rep["errors"].append("forbidden construct %r in %s" % (m.group(0), os.path.relpath(path, COQ)))
+    # forbidden words anywhere in the files this property's theorems depend on (bin/setup scans all)
+    for path in dependency_closure(files):
+        txt = open(path).read()
+        txt_nc = re.sub(r"\(\*.*?\*\)", "", txt, flags=re.S)
+        m = FORBIDDEN.search(txt_nc)
+        if m:
+            rep["ok"] = False
+            rep["errors"].append("forbidden construct %r in %s" % (m.group(0), os.path.relpath(path, COQ)))
     for f in files:
         rel = os.path.relpath(f, COQ)
         txt = open(f).read()
